@@ -200,10 +200,10 @@ def entry_job(arg):
     if not seeds:
         return {'label': label, 'dist': dist, 'cases': 0, 'nontrivial': 0, 'sites': [], 'samples': []}
     if tier == 'quick':
-        seeds = seeds[:60]
-        nsynth, cap = 120, 160
+        seeds = seeds[:100]
+        nsynth, cap = 600, 600
     else:
-        nsynth, cap = 2500, 2500
+        nsynth, cap = 6000, 6000
     pool = list(seeds)
     cases = synthesise(rng, e, val, pool, seeds, nsynth)
     numbers = seeds + pool[len(seeds):][:max(0, cap - len(seeds))]
